@@ -7,7 +7,7 @@ import shutil
 import time
 
 from common import (CACHE, CRATES, GEN, KANI_SRC, KANI_TARGET, PLAYBACK_TARGET, REPO, RESULTS,
-                    VERIF, env_offline, load_json, run, sha256_bytes, tree_hash, write_json)
+                    VERIF, env_offline, load_json, run, sha256_bytes, sha256_file, tree_hash, write_json)
 
 UNIT_RE = re.compile(r"^\s*//\s*@unit\s+(.*)$")
 KV_RE = re.compile(r'(\w+)=("([^"]*)"|\S+)')
@@ -129,15 +129,31 @@ def generate(extra_generators=()):
 
 
 def input_hash():
-    """Hash of everything a Kani verdict depends on: repo sources, harness sources, driver."""
+    """Hash of the repo side of what a Kani verdict depends on (the harness side is harness_hash)."""
     return CACHE_VERSION + tree_hash(
-        [os.path.join(REPO, "crates"), os.path.join(REPO, "Cargo.toml"), os.path.join(REPO, "Cargo.lock"),
-         os.path.join(GEN, "kani")],
-        (".rs", ".toml", ".lock", ".in"))
+        [os.path.join(REPO, "crates"), os.path.join(REPO, "Cargo.toml"), os.path.join(REPO, "Cargo.lock")],
+        (".rs", ".toml", ".lock"))
+
+
+_HH = {}
+
+
+def harness_hash(unit):
+    """Hash of the harness side: the unit's own harness file (harness modules are private leaf modules that
+    do not reference each other) and the generated tables next to it."""
+    gen_file = os.path.join(GEN, "kani", unit.crate, os.path.basename(unit.file))
+    if gen_file not in _HH:
+        d = os.path.dirname(gen_file)
+        parts = [sha256_file(gen_file)]
+        for f in sorted(os.listdir(d)):
+            if f.endswith(".in"):
+                parts.append(sha256_file(os.path.join(d, f)))
+        _HH[gen_file] = sha256_bytes(":".join(parts).encode())
+    return _HH[gen_file]
 
 
 # bump when the way verdicts are derived from Kani output changes (classify / parse_output / kani_cmd)
-CACHE_VERSION = "v3:"
+CACHE_VERSION = "v4:"
 
 
 # ------------------------------------------------------------------------------------------------
@@ -274,7 +290,7 @@ def run_units(units, tier, jobs=16, use_cache=True, log=None):
     todo = []
     os.makedirs(RESULTS, exist_ok=True)
     for u in units:
-        cpath = os.path.join(RESULTS, sha256_bytes(f"{ih}:{u.id}:{u.fq}:{u.flags}".encode())[:32] + ".json")
+        cpath = os.path.join(RESULTS, sha256_bytes(f"{ih}:{harness_hash(u)}:{u.id}:{u.fq}:{u.flags}".encode())[:32] + ".json")
         c = load_json(cpath) if use_cache else None
         if c and c.get("verdict") in ("verified", "known-present", "known-absent"):
             c["cached"] = True
